@@ -179,12 +179,9 @@ UNITS += [
 ]
 
 KANI = [
-    Harness("index::binarysorted::verif_kani::c17_bounded_lookup_matches_listing", kind="bounded",
-            bound="2 packs x <= 2 blobs; ids in {0..3} in one byte; symbolic types, offsets, lengths; all 3 index modes",
-            functions=["index::binarysorted::{IndexCollector::new, extend, Index::get_id, has, total_size} (end to end, bounded; sort step by std instead of rayon)"], timeout=1800),
-    Harness("index::binarysorted::verif_kani::c17_bounded_pack_iteration_roundtrip", kind="bounded",
-            bound="2 packs x <= 2 blobs; ids in {0..3}; full index mode",
-            functions=["<index::binarysorted::PackIndexes as Iterator>::next (bounded; into_iter sort step by std instead of rayon)"], timeout=1800),
+    Harness("index::binarysorted::verif_kani::c17_bounded_pack_indexes_next", kind="bounded",
+            bound="iterator state built directly: tree packs {2 blobs, 0 blobs}, data packs {1 blob}; ids/offsets/lengths symbolic",
+            functions=["<index::binarysorted::PackIndexes as Iterator>::next (bounded)"], timeout=900),
 ]
 KANI_UNWIND = 6
 META = {"not_covered": [
